@@ -1,7 +1,11 @@
 """C05 — The update stream always reconstructs the node's parameter cache."""
 import json
 import os
+import queue
 import shutil
+import socket
+import sys
+import io
 import tempfile
 import threading as _threading
 
@@ -35,7 +39,20 @@ META = {
                   'fanout_shape: every selected listener is sent the message, the request handlers ignore the sending connection); '
                   'histories contain change / read / do requests of listening and other connections, driver methods that assign the '
                   'parameter themselves (observed after every call of the funnel), and values closer to each other than the resolution '
-                  'of their datatype (drifts); the Lean monitors judge every implementation trace from the activation of each connection on.',
+                  'of their datatype (drifts); the Lean monitors judge every implementation trace from the activation of each connection on.  '
+                  'The TRANSPORT of the stream (TCPRequestHandler.send_reply, the handle loop, finish, Dispatcher.remove_connection; model '
+                  'Node/Transport.lean, the socket is a parameter: every sendall succeeds or raises after any part of the frame): '
+                  'transport_all_or_closed (any sequence of send_reply calls and rounds of the handler loop: a running connection has received '
+                  'every frame handed to it, a stopped one a prefix and is closed and forgotten by the next round; never a garbled line; '
+                  'listed = not closed), served_receives_all, transport_activate_replay_eq_cache (snapshot + any history of funnel calls through '
+                  'any socket behaviour: what a still listed peer RECEIVED replays to the cache), transport_preserves_statement (TraceOkO at '
+                  'send_reply implies TraceOkT at the peer, point by point), skip_on_failure_breaks / _garbles (a transport that skips a frame '
+                  'and goes on breaks the statement: closing is necessary), send_shape (generated source facts: every handler of the try around '
+                  'sendall sets running = False, sendall only under `if self.running`, both loops of handle test running, finish in a finally, '
+                  'finish -> remove_connection -> out of _connections / _active_connections / subscriptions, socket closed); suite tcp: the '
+                  'connections of a history are real TCPRequestHandler threads over scripted sockets (requests go through the socket; sendall '
+                  'of the n-th event message / reply fails with time-out, broken pipe, reset, OSError or another exception after 0 / some / '
+                  'all-but-one bytes; the peer reads again afterwards or not), model (verb tcp) vs. bytes received + open / listed, judged by judgeT.',
     'level_note': 'Trusted: Lean kernel + axioms propext/Quot.sound; hypothesis CanonExact (canonical values Python\'s != does not tell apart '
                   'have the same exported form) is tested on every case; callbacks re-entering the SAME parameter, callback trees deeper than one follower level, callbacks raising '
                   'BaseException, callbacks inside the small-step (concurrent) system, change requests with partial structs '
@@ -54,11 +71,17 @@ META = {
     'modelled_not_verified': [
         'datatype conversion / validation (oracle tables computed by the real datatypes)',
         'what a callback function does (oracle: returns / TypeError / other Exception, optional call of another funnel)',
-        'the transport behind connection.send_reply (observed at send_reply)',
+        'the socket under TCPRequestHandler.send_reply: a parameter of the transport model (each sendall sends the whole frame or raises '
+        'after part of it); in the tcp suite a scripted object, not a kernel socket: a full output buffer is represented by its effect '
+        '(sendall raising socket.timeout); framing / encoding of a message (encode_msg_frame, decode_msg) is C07',
+        'other interfaces than TCP (a RequestHandler subclass brings its own send_reply)',
         'which parameters a specifier subscribes to (computed by the harness: all exported parameters of the module(s) / the named one)',
         'import_value of the datum of a change request (oracle: the imported value or "refused"); partial structs are not sent',
     ],
-    'assumptions': ['a connection, once activated, stays activated (deactivation and disconnection: C08)',
+    'assumptions': ['a connection, once activated, stays activated unless the node gives it up after a failed send (then it must be closed '
+                    'and forgotten: transport suite); deactivation and disconnection by the client: C08',
+                    'the handler thread of a connection looks at `running` at least once per receive time-out (1 s): between a failed send and '
+                    'that moment the connection is still listed but silent; the statement is judged at quiescent points (after that round)',
                     'the clock never returns 0'],
 }
 
@@ -383,6 +406,8 @@ def do_op(m, case, pid, op, errs, node=None, conns=None):
     inner = [raw_of(case, pid, i) for i in inner_idx]
     body = (lambda r: Body(inner, r)) if inner else (lambda r: r)
     kind = op[0]
+    if kind in ('rread', 'change', 'do') and conns and hasattr(conns[op[1] % len(conns)], 'script_ident'):
+        me = conns[op[1] % len(conns)].script_ident()     # the request is handled by the thread of that connection
     try:
         if kind in ('read', 'rread'):
             res = op[1:] if kind == 'read' else op[2:]
@@ -664,13 +689,24 @@ def impl_seq(case, errs, tables):
     """run a history on the real code: request for the model, observation per step (operations and activations)"""
     import frappy.modulebase as mb
     saved = mb.time
+    saved_out = sys.stdout
     try:
         ids, conv, valid = prepare(case, errs)
         clock = Clock(T0)
         node, m, dts = build(case, clock)
         ids.dts = dts
         steps = norm_steps(case['ops'])
-        conns = [node.connect() for _ in range(n_conns(steps))]          # cids 1..n
+        tcp = case.get('tcp')
+        if tcp is not None:
+            sys.stdout = io.StringIO()      # the request loop prints the traceback of every unexpected exception of a request
+        if tcp is None:
+            conns = [node.connect() for _ in range(n_conns(steps))]          # cids 1..n
+            router = node
+        else:
+            conns = [TcpConn(node, ci + 1, {(k, n): (exc, w) for c, k, n, w, exc in tcp['faults'] if c == ci}, tcp['back'])
+                     for ci in range(n_conns(steps))]
+            router = ReqRouter(node)
+        replies = []
         entry = entry_json(ids, m, case, 0, tables)
         real_window = int(round(m.parameters['p'].omit_unchanged_within * TICKS))
         init_py, init_x, _ = cache_obs(ids, m, 0)
@@ -679,23 +715,40 @@ def impl_seq(case, errs, tables):
 
         def point(si, extra=()):
             # one observation point: what every connection received since the last one, and the cache
-            recv, other = drain_conns(ids, conns, spec_pid)
+            if tcp is None:
+                recv, other = drain_conns(ids, conns, spec_pid)
+                status = None
+            else:
+                for c in conns:
+                    c.tick()             # the receive call of the handler times out: the loop looks at its flags
+                recv, status = drain_tcp(ids, conns, spec_pid, node.dispatcher)
+                other = []
             py, x, ts = cache_obs(ids, m, 0)
             outs.append({'recv': recv, 'cache_py': py, 'cache_x': x, 'caches_x': [x], 'ts': ts, 'other': other + list(extra),
-                         'step': si})
+                         'step': si, 'tcp': status})
         for si, (dt, op) in enumerate(steps):
             now += dt
             clock.ticks = now
             failed = []
-            if op[0] == 'activate':
+            if op[0] == 'activate' and tcp is not None:
+                # the request goes through the socket; a client whose connection was closed cannot send anything
+                alive = conns[op[1]].alive()
+                ops.append({'now': now, 'op': ['activate', op[1] + 1 if alive else 99, [0] if alive else []]})
+                replies.append(op[1] + 1 if alive else None)
+                if alive:
+                    conns[op[1]].request('activate', {'all': None, 'mod': 'm', 'par': 'm:_p'}[op[2]], None)
+            elif op[0] == 'activate':
                 ops.append({'now': now, 'op': ['activate', op[1] + 1, [0]]})
                 reply = node.request(conns[op[1]], 'activate', {'all': None, 'mod': 'm', 'par': 'm:_p'}[op[2]], None)
                 if reply[0] != 'active':
                     failed = ['activate:' + str(reply[0])]
             else:
                 ops.append({'now': now, 'op': wire_op(ids, case, 0, op, errs, len(conns))})
+                base = split_inner(op)[1]
+                sender = conns[base[1] % len(conns)] if base[0] in ('change', 'rread', 'do') else None
+                replies.append(sender.cid if tcp is not None and sender is not None and sender.alive() else None)
                 m.observe = lambda si=si: (point(si), fsteps.append([0, ['body']]))
-                do_op(m, case, 0, op, errs, node, conns)
+                do_op(m, case, 0, op, errs, router, conns)
                 m.observe = None
             point(si, failed)
             fsteps.append([dt, op])
@@ -708,10 +761,16 @@ def impl_seq(case, errs, tables):
                       for i in unvalidated_ids([o['op'] for o in ops]) if i not in canon_ids(conv, valid, [])]
         req = {'p': 'C05', 'k': 'seq', 'eq': pairs, 'conv': conv, 'valid': valid, 'entry': entry, 'ops': ops,
                'cids': list(range(1, len(conns) + 1))}
+        if tcp is not None:
+            req.update(k='tcp', replies=replies, faults=[[c + 1, k, n, w] for c, k, n, w, _ in tcp['faults']])
         return {'req': req, 'outs': outs, 'init_x': init_x, 'init_py': init_py, 'ex': ex, 'bad_law': bad_law, 'bad_canon': bad_canon,
                 'real_window': real_window, 'steps': steps, 'fsteps': fsteps}
     finally:
         mb.time = saved
+        sys.stdout = saved_out
+        for c in locals().get('conns', []):
+            if hasattr(c, 'stop'):
+                c.stop()
         if 'node' in locals():
             drop_loggers(node)
 
@@ -749,6 +808,228 @@ def first_bad(jreqs, answers, outs=None):
             at = first + jd['bad'][0]
             return [ci, pid, outs[at]['step'] if outs is not None else at, jd['bad'][1]]
     return None
+
+
+# ----------------------------------------------------------------------------------------
+# the transport: the connections of a sequential history are real TCPRequestHandlers (own thread each) over scripted
+# sockets.  The peer may stop reading: a `sendall` of the node then raises (socket.timeout after the output buffer stayed
+# full for the send time-out; or the peer is gone: broken pipe / reset / ...) after part of the frame went out, and later
+# the peer reads again (`back`) or not.  case['tcp'] = {'faults': [[connection index, 'ev'|'rep', n, bytes written,
+# exception kind], ...], 'back': bool}: the n-th sendall of an event message (update / error_update) resp. of any other
+# message (the reply to a request) on that connection fails.
+# ----------------------------------------------------------------------------------------
+SEND_EXC = {'timeout': socket.timeout, 'pipe': BrokenPipeError, 'reset': ConnectionResetError, 'os': OSError, 'other': ValueError}
+WAIT = 30.0
+REPLIES = {'active', 'inactive', 'changed', 'reply', 'done', 'pong', 'describing', 'ISSE'}
+
+
+class ScriptSock:
+    """the node's end of a connection to a scripted peer; `wire` = the bytes the peer has received"""
+
+    def __init__(self, faults, back):
+        self.inq = queue.Queue()
+        self.wire = bytearray()
+        self.faults = faults          # {('ev'|'rep', n): (exception kind, bytes written)}
+        self.back = back
+        self.count = {'ev': 0, 'rep': 0}
+        self.failed = False
+        self.closed = False
+        self.idle = _threading.Event()
+
+    def settimeout(self, t):
+        pass
+
+    def recv(self, n):
+        self.idle.set()               # the handler thread waits for the peer
+        item = self.inq.get(timeout=WAIT)
+        if item is None:
+            raise socket.timeout('timed out')
+        return item
+
+    def sendall(self, b):
+        b = bytes(b)
+        kind = 'ev' if b.startswith((b'update ', b'error_update ')) else 'rep'
+        n = self.count[kind]
+        self.count[kind] += 1
+        f = self.faults.get((kind, n))
+        if f is None and self.failed and not self.back:
+            f = ('pipe', 0)
+        if f is not None:
+            self.failed = True
+            self.wire += b[:max(0, min(f[1], len(b) - 1))]
+            raise SEND_EXC[f[0]]('scripted failure of sendall')
+        self.wire += b
+
+    def shutdown(self, how):
+        pass
+
+    def close(self):
+        self.closed = True
+        self.idle.set()
+
+
+class TcpServerStub:
+    """what TCPRequestHandler needs from TCPServer"""
+    detailed_errors = False
+
+    def __init__(self, node):
+        self.log = node.log.getChild('tcp')
+        self.dispatcher = node.dispatcher
+
+
+class TcpConn:
+    def __init__(self, node, cid, faults, back):
+        from frappy.protocol.interface.tcp import TCPRequestHandler
+        self.cid = cid
+        self.sock = ScriptSock(faults, back)
+        self.seen = 0
+        before = list(node.dispatcher._connections)
+        self.thread = _threading.Thread(target=TCPRequestHandler, args=(self.sock, ('127.0.0.1', 50000 + cid), TcpServerStub(node)),
+                                        daemon=True)
+        self.thread.start()
+        if not self.sock.idle.wait(WAIT):
+            raise RuntimeError('the handler thread does not start')
+        new = [c for c in node.dispatcher._connections if c not in before]
+        self.handler = new[0] if new else None
+
+    def alive(self):
+        return not self.sock.closed
+
+    def script_ident(self):
+        return self.thread.ident if self.alive() else _threading.get_ident()
+
+    def feed(self, item):
+        """hand something to the receive call of the handler thread and wait until it waits for the peer again (or has finished)"""
+        if self.sock.closed:
+            return
+        self.sock.idle.clear()
+        self.sock.inq.put(item)
+        if not self.sock.idle.wait(WAIT):
+            raise RuntimeError('the handler thread does not come back')
+
+    def tick(self):
+        self.feed(None)
+
+    def request(self, action, spec, data):
+        from frappy.protocol.interface import encode_msg_frame
+        self.feed(encode_msg_frame(action, spec, data))
+
+    def stop(self):
+        if not self.sock.closed:
+            self.sock.inq.put(b'')
+        self.thread.join(WAIT)
+
+    def new_lines(self):
+        data = bytes(self.sock.wire)
+        end = data.rfind(b'\n') + 1
+        lines = data[self.seen:end].split(b'\n')[:-1] if end > self.seen else []
+        self.seen = max(end, self.seen)
+        return lines
+
+
+class ReqRouter:
+    """`node.request` for connections over the transport: the request goes through the socket of a living connection;
+    for a connection that was closed the same request is made by an anonymous other client (the history stays the same)"""
+
+    def __init__(self, node):
+        from vlib.node import Conn
+        self.node = node
+        self.anon = Conn(0)
+
+    def request(self, conn, action, spec=None, data=None):
+        if conn.alive():
+            return conn.request(action, spec, data)
+        return self.node.request(self.anon, action, spec, data)
+
+
+def drain_tcp(ids, conns, pid_of, dispatcher):
+    """what every peer received since the last call (complete lines, decoded), and how the node treats the connection"""
+    from frappy.protocol.interface import decode_msg
+    recv, status = [], []
+    for c in conns:
+        got, garbled, nrep = [], 0, 0
+        for line in c.new_lines():
+            try:
+                msg = decode_msg(line)
+                pid = pid_of(msg[1]) if msg[0] in ('update', 'error_update') else None
+                if pid is not None:
+                    ve, t = msg_obs(ids, pid, msg)
+                    got.append([pid, ve, t])
+                elif msg[0] in REPLIES or (msg[0].startswith('error_') and msg[0] != 'error_update'):
+                    nrep += 1
+                else:
+                    garbled += 1
+            except Exception:
+                garbled += 1
+        h = c.handler
+        listed = (h in dispatcher._connections or h in dispatcher._active_connections
+                  or any(h in v for v in dispatcher._subscriptions.values()))
+        recv.append(got)
+        status.append({'garbled': garbled, 'open': not c.sock.closed, 'listed': listed, 'replies': nrep})
+    return recv, status
+
+
+def compare_tcp(run, ans):
+    if ans['window'] != run['real_window']:
+        return f'window: model {ans["window"]} impl {run["real_window"]}'
+    if ans['init'] != run['init_py']:
+        return f'initial entry: model {ans["init"]} impl {run["init_py"]}'
+    if len(ans['outs']) != len(run['outs']):
+        return f'{len(ans["outs"])} model steps, {len(run["outs"])} implementation steps'
+    for i, (mo, io) in enumerate(zip(ans['outs'], run['outs'])):
+        if mo['cache'] != io['cache_py'] or mo['ts'] != io['ts']:
+            return f'step {i}: cache model {mo["cache"]}@{mo["ts"]} impl {io["cache_py"]}@{io["ts"]}'
+        for ci, (mc, ic, ir) in enumerate(zip(mo['tcp'], io['tcp'], io['recv'])):
+            mr = [[pid, ex_ve(run['ex'], ve), t] for pid, ve, t in mc['recv']]
+            mine = [mr, mc['garbled'], mc['open'], mc['listed']]
+            theirs = [ir, ic['garbled'], ic['open'], ic['listed']]
+            if mine != theirs:
+                return f'step {i}: connection {ci + 1} [received, garbled lines, open, listed]: model {mine} impl {theirs}'
+    return None
+
+
+def judge_reqs_tcp(run):
+    reqs = []
+    for ci, pid, first, q in stream_judge_reqs(run['fsteps'], run['outs'], [run['init_x']], 1):
+        trace = [dict(t, garbled=o['tcp'][ci]['garbled'], open=o['tcp'][ci]['open'], listed=o['tcp'][ci]['listed'])
+                 for t, o in zip(q['trace'], run['outs'][first:])]
+        reqs.append((ci, pid, first, {'p': 'C05', 'k': 'judge_tcp', 'prev': q['prev'], 'trace': trace}))
+    return reqs
+
+
+def tcp_fails(ctx, case, errs, tables):
+    run = impl_seq(case, errs, tables)
+    jreqs = judge_reqs_tcp(run)
+    return first_bad(jreqs, ctx.driver.batch([r[3] for r in jreqs]), run['outs'])
+
+
+def gen_tcp(rng, big):
+    """a history of single-call operations (driver side and requests) with 1-3 connections over the transport, and a fault
+    script: which sendall calls fail, how, after how many bytes, and whether the peer takes data again afterwards"""
+    params = gen_params(rng, 1)
+    case = {'params': params, 'mw': rng.choice(MW), 'gw': rng.choice(GW), 'ops': []}
+    nvalid, nall = pool_size(params[0]['kind'])
+    nerr = len(error_pool())
+    uu = params[0]['uu']
+    w = {'default': case['mw'] if case['mw'] is not None else case['gw'], 'always': 0, 'never': 10 ** 9}.get(uu, uu)
+    wt = min(int(w * TICKS), 10 ** 6)
+    steps = [0, 1, 1, wt, wt + 1, wt + 1, 3 * wt + 5]
+    for _ in range(rng.randint(3, 24 if big else 12)):
+        case['ops'].append([rng.choice(steps), gen_base_op(rng, params[0], nvalid, nall, nerr)])
+    case['ops'].insert(0, [0, ['activate', 0, rng.choice(ACT_KINDS), 0]])
+    for _ in range(rng.choice([0, 0, 1, 1, 2])):
+        case['ops'].insert(rng.randrange(len(case['ops']) + 1),
+                           [rng.choice(steps), ['activate', rng.choice([0, 1, 1, 2]), rng.choice(ACT_KINDS), 0]])
+    faults = []
+    for _ in range(rng.choice([0, 1, 1, 1, 2, 3])):
+        f = [rng.choice([0, 0, 0, 1, 1, 2]), rng.choice(['ev', 'ev', 'ev', 'ev', 'rep']), rng.choice([0, 1, 1, 2, 2, 3, 4, 6]),
+             rng.choice([0, 0, 1, 7, 10 ** 6]), rng.choice(['timeout', 'timeout', 'timeout', 'pipe', 'reset', 'os', 'other'])]
+        if f[1] == 'rep':
+            f[2] = rng.choice([0, 0, 1, 2])
+        if not any(g[:3] == f[:3] for g in faults):
+            faults.append(f)
+    case['tcp'] = {'faults': faults, 'back': rng.random() < 0.75}
+    return case
 
 
 def gen_op(rng, ps, nvalid, nall, nerr):
@@ -1521,7 +1802,9 @@ def run(ctx):
                 'datatypes under every update_unchanged / module / general window setting with clock steps inside, at and outside the '
                 'window; non-trivial = at least one message suppressed, one error announced and one recovery.  concurrent: 1-3 threads '
                 'x 1-3 operations on 1-2 parameters, 1-3 connections, systematic exploration with <= 2 preemptions plus random '
-                'schedules; non-trivial = two threads touched the same parameter and at least two messages were delivered')
+                'schedules; non-trivial = two threads touched the same parameter and at least two messages were delivered.  tcp: histories '
+                'of single-call operations with 1-3 real TCP handler threads over scripted sockets, 0-3 scripted sendall failures; '
+                'non-trivial = the node closed a connection, another one is still served and more than two messages arrived')
     big = ctx.tier == 'thorough' or ctx.escalated
     rng = ctx.rng
     errs = error_pool()
@@ -1532,11 +1815,12 @@ def run(ctx):
     # ---------------- sequential ----------------
     seq_cases = []
     cdir = os.path.join(ctx.verif, 'corpus', 'C05')
-    conc_corpus, builtin_corpus, follow_corpus = [], [], []
+    conc_corpus, builtin_corpus, follow_corpus, tcp_corpus = [], [], [], []
     if os.path.isdir(cdir):
         for fn in sorted(os.listdir(cdir)):
             c = json.load(open(os.path.join(cdir, fn)))
-            {'seq': seq_cases, 'conc': conc_corpus, 'builtin': builtin_corpus, 'follow': follow_corpus}[c['kind']].append(c['case'])
+            {'seq': seq_cases, 'conc': conc_corpus, 'builtin': builtin_corpus, 'follow': follow_corpus,
+             'tcp': tcp_corpus}[c['kind']].append(c['case'])
     for _ in range(ctx.budget(3000, 20000)):
         seq_cases.append(gen_seq(rng, big))
     shrunk = 0
@@ -1614,6 +1898,61 @@ def run(ctx):
                                        'what': f'history on a {ps["kind"]} parameter (update_unchanged={ps["uu"]}): step '
                                                f'{bad[2]} breaks "{bad[3]}" for connection {bad[0] + 1}: '
                                                f'steps={norm_steps(small["ops"])}',
+                                       'detail': {'original': case}})
+
+    # ---------------- the transport: connections = real TCP handlers over sockets whose peer stops reading ----------------
+    tcases = list(tcp_corpus)
+    for _ in range(ctx.budget(600, 8000)):
+        tcases.append(gen_tcp(rng, big))
+    tshrunk = 0
+    for start in range(0, len(tcases), CH):
+        chunk = tcases[start:start + CH]
+        runs = [impl_seq(case, errs, tables) for case in chunk]
+        reqs, pos = [], []
+        for r in runs:
+            r['jreqs'] = judge_reqs_tcp(r)
+            pos.append(len(reqs))
+            reqs.append(r['req'])
+            reqs += [q[3] for q in r['jreqs']]
+        answers = ctx.driver.batch(reqs)
+        for case, r, at in zip(chunk, runs, pos):
+            ans, jds = answers[at], answers[at + 1: at + 1 + len(r['jreqs'])]
+            if any('driver_error' in a for a in [ans] + jds):
+                raise RuntimeError(f'driver error: {ans} {jds} {json.dumps(r["req"])[:400]}')
+            res.evaluations += 1
+            res.traces += 1
+            ps = case['params'][0]
+            faults = case['tcp']['faults']
+            res.count('tcp.faults=%d' % len(faults))
+            for f in faults:
+                res.count('tcp.fault=' + f[1] + '/' + f[4] + '/' + ('nothing' if f[3] == 0 else 'part') + ' written')
+            last = r['outs'][-1]['tcp']
+            nclosed = sum(1 for st in last if not st['open'])
+            res.count('tcp.connections-closed-by-the-node=%d of %d' % (nclosed, len(last)))
+            res.count('tcp.peer-reads-again=' + ('yes' if case['tcp']['back'] else 'no'))
+            nmsg = sum(len(per) for o in r['outs'] for per in o['recv'])
+            res.count('tcp.messages-received=' + ('0' if nmsg == 0 else '1-5' if nmsg < 6 else '6+'))
+            if nclosed and nmsg > 2 and any(st['open'] for st in last):
+                res.nontriv(case)
+            if ctx.model_ok:
+                diff = compare_tcp(r, ans)
+                if diff:
+                    res.disagreements.append({'case': {'kind': 'tcp', 'case': case}, 'model': diff, 'impl': 'see replay'})
+            bad0 = first_bad(r['jreqs'], jds, r['outs'])
+            if bad0 is not None:
+                small = case
+                if tshrunk < 3:
+                    tshrunk += 1
+                    ops = ddmin(r['steps'], lambda o, case=case: tcp_fails(ctx, dict(case, ops=o), errs, tables))
+                    small = dict(case, ops=ops)
+                    keep = ddmin(small['tcp']['faults'], lambda f, small=small: tcp_fails(
+                        ctx, dict(small, tcp=dict(small['tcp'], faults=f)), errs, tables))
+                    small = dict(small, tcp=dict(small['tcp'], faults=keep))
+                bad = (tcp_fails(ctx, small, errs, tables) if small is not case else None) or bad0
+                res.violations.append({'sig': 'C05:tcp:' + bad[3], 'case': {'kind': 'tcp', 'case': small},
+                                       'what': f'history on a {ps["kind"]} parameter, connections over TCP handlers, sendall failing '
+                                               f'as scripted {small["tcp"]}: step {bad[2]} breaks "{bad[3]}" for connection '
+                                               f'{bad[0] + 1}: steps={norm_steps(small["ops"])}',
                                        'detail': {'original': case}})
 
     # ---------------- followers attached with registerCallbacks; explicit time stamps ----------------
@@ -1793,7 +2132,7 @@ def replay(ctx, rp):
     errs = error_pool()
     tables = _tables(ctx)
     case = rp['case']
-    if 'kind' not in case and rp.get('kind') in ('seq', 'builtin', 'conc', 'follow'):
+    if 'kind' not in case and rp.get('kind') in ('seq', 'builtin', 'conc', 'follow', 'tcp'):
         case = {'kind': rp['kind'], 'case': case}      # a corpus file
     if case['kind'] == 'seq':
         r = impl_seq(case['case'], errs, tables)
@@ -1803,6 +2142,16 @@ def replay(ctx, rp):
         for i, o in enumerate(r['outs']):
             print(f'  step {o["step"]}: {r["fsteps"][i]} -> per connection {o["recv"]} cache {o["cache_x"]}@{o["ts"]}')
         print('model :', compare_seq(r, answers[0]) or 'agrees with the implementation')
+        print('judge :', [(f'conn {ci + 1}', f'from step {first}', jd) for (ci, _, first, _), jd in zip(jreqs, answers[1:])])
+        return 0 if all(a.get('bad') is None for a in answers[1:]) else 1
+    if case['kind'] == 'tcp':
+        r = impl_seq(case['case'], errs, tables)
+        jreqs = judge_reqs_tcp(r)
+        answers = ctx.driver.batch([r['req']] + [q[3] for q in jreqs])
+        print('case  :', json.dumps(case['case']))
+        for i, o in enumerate(r['outs']):
+            print(f'  step {o["step"]}: {r["fsteps"][i]} -> per connection received {o["recv"]} status {o["tcp"]} cache {o["cache_x"]}@{o["ts"]}')
+        print('model :', compare_tcp(r, answers[0]) or 'agrees with the implementation')
         print('judge :', [(f'conn {ci + 1}', f'from step {first}', jd) for (ci, _, first, _), jd in zip(jreqs, answers[1:])])
         return 0 if all(a.get('bad') is None for a in answers[1:]) else 1
     if case['kind'] == 'follow':
